@@ -1802,10 +1802,11 @@ class Inspector(inspection.Inspectable["Inspector"]):
             referred_schema = fkey_d["referred_schema"]
             referred_table = fkey_d["referred_table"]
             referred_columns = fkey_d["referred_columns"]
-            refspec = []
+            refspec: List[Union[str, sa_schema.Column[Any]]] = []
+            reftable = None
             if referred_schema is not None:
                 if resolve_fks:
-                    sa_schema.Table(
+                    reftable = sa_schema.Table(
                         referred_table,
                         table.metadata,
                         schema=referred_schema,
@@ -1814,13 +1815,10 @@ class Inspector(inspection.Inspectable["Inspector"]):
                         _reflect_info=_reflect_info,
                         **reflection_options,
                     )
-                for column in referred_columns:
-                    refspec.append(
-                        ".".join([referred_schema, referred_table, column])
-                    )
+                reftokens = [referred_schema, referred_table]
             else:
                 if resolve_fks:
-                    sa_schema.Table(
+                    reftable = sa_schema.Table(
                         referred_table,
                         table.metadata,
                         autoload_with=self.bind,
@@ -1829,8 +1827,23 @@ class Inspector(inspection.Inspectable["Inspector"]):
                         _reflect_info=_reflect_info,
                         **reflection_options,
                     )
-                for column in referred_columns:
-                    refspec.append(".".join([referred_table, column]))
+                reftokens = [referred_table]
+            for column in referred_columns:
+                refcol = None
+                if reftable is not None and (
+                    "." in column or "." in referred_table
+                ):
+                    # the dotted string form cannot name a table or column
+                    # whose own name contains a dot; refer to the Column of
+                    # the table that was just reflected instead
+                    for c in reftable.c:
+                        if c.name == column:
+                            refcol = c
+                            break
+                if refcol is not None:
+                    refspec.append(refcol)
+                else:
+                    refspec.append(".".join(reftokens + [column]))
             if "options" in fkey_d:
                 options = fkey_d["options"]
             else:
